@@ -20,6 +20,12 @@ CHECKS = {
  'C12': ('model_checking', 'TLA+ MpqOps (mpq_mul/add/sub store sequences under all alias patterns: exact and canonical; TLC exhaustive) + trace validation requiring canonical exact results', 'store-sequence model + traces with prescribed common factors for every gcd branch', '4 C12'),
  'C13': ('model_checking', 'TLA+ MpfContract (accuracy predicates vs brute force) + trace validation evaluating |result - exact| < 2^(2-p)|exact|, the exactness clause and the mpf format rules exactly on dyadic rationals', 'exact evaluation of the property\'s inequality on every recorded float operation (independent precisions, all exponent differences, cancellation, aliasing, set_prec histories)', '4 C13'),
  'C16': ('model_checking', 'TLA+ BinDispatch (mpz_bin_uiui algorithm selection: table limits sound and tight; boundary pairs replayed) + trace validation against combinatorial definitions and deterministic Miller-Rabin', 'dispatch/table model + dense argument sweeps, pseudoprime families, prime gaps', '4 C16'),
+ 'C14': ('translation_validation', 'every build variant (all x86-64 CPU directory mappings, pure C, fat, --enable-assert, alloca modes) built from the working tree; its thresholds drive the TLA+ dispatch models; a kernel/API battery is traced and validated against the same MPIR.tla; TLA+ FatInit model of the lazy dispatch initialisation', 'the same specification decides every (variant, kernel) pair; asm-only kernels checked by their defining identities', '4 C14'),
+ 'C15': ('exploration', 'TLA+ Threads (interleavings at yield points, TLC-enumerated schedules forced on the real library by a cooperative scheduler; per-thread traces validated against the sequential MPIR.tla) + global-write inventory (MPIR!GlobalWrite admits only documented globals) + FatInit; thorough: ThreadSanitizer pass as auxiliary channel', 'schedules are explored at yield-point granularity only (level: exploration); hidden shared state is caught deterministically by the write inventory', '4 C15'),
+ 'C17': ('fault_enumeration', 'TLA+ IOFormat/IOModel (export/import layout, raw format, every fault position enumerated by TLC) replayed through fault-injecting fopencookie streams; traces validated against the documented formats and return codes', 'every truncation point and failing write position of small values is enumerated; larger values sampled', '4 C17'),
+ 'C18': ('model_checking', 'TLA+ PrintfLayout/PrintfModel: transcription of doprnt.c/doprnti.c equals C99 printf layout on the whole flag x width x precision x conversion x value product (TLC); every row replayed on gmp_snprintf and on the C library; snprintf/asprintf/scanf accounting', 'layout model checked against the standard and against libc, then against the implementation', '4 C18'),
+ 'C19': ('model_checking', 'TLA+ RandModels (urandomm rejection, LC chunk assembly) + trace validation with a reproducibility ghost (history key -> outputs) in MPIR.tla and whole-sample statistics evaluated by TLC', 'range, reproducibility and gross-uniformity decided on recorded histories of twin/copy generator states', '4 C19'),
+ 'C20': ('exploration', 'TLA+ CxxExpr enumerates well-typed expression trees; generated C++ compiled against mpirxx.h; printed values validated against CxxSem!EvalZ/EvalQ (sub-expression-wise C semantics); conversions/streams against SemIO', 'trees to depth 2 (bounded), four operand classes; mpf_class arithmetic not enumerated', '4 C20'),
 }
 NA_REASON = 'check not built yet (work in progress; see DESIGN.md section 7)'
 hooks_commits = []
